@@ -55,6 +55,13 @@ class PrinterModel:
                     isinstance(n.body[0].value, ast.Call) and call_name(n.body[0].value) == 'Bracket' and \
                     isinstance(n.body[0].targets[0], ast.Name):
                 var = n.body[0].targets[0].id
+                # a decision delegated to a small helper (`needs_bracket(arg, op_data, side)`) is read through the helper
+                from ..idioms import inline_pure_helpers
+                helpers = dict(self.helper.parent.nested) if self.helper.parent is not None else {}
+                helpers.update(self.helper.nested)
+                helpers.pop(self.helper.name, None)
+                test = inline_pure_helpers(n.test, helpers)
+                n = ast.If(test=test, body=n.body, orelse=n.orelse)
                 mentions_row = any(isinstance(x, ast.Attribute) and x.attr == 'priority' for x in ast.walk(n.test))
                 mentions_assoc = any(isinstance(x, ast.Attribute) and x.attr == 'assoc' for x in ast.walk(n.test))
                 if mentions_assoc:
@@ -68,6 +75,10 @@ class PrinterModel:
             need(k in self.tests, 'pprint.get_ast_term.helper: bracket decision %s not found' % k)
 
     def _eval(self, e, env):
+        if isinstance(e, ast.Compare) and len(e.ops) == 1 and isinstance(e.ops[0], (ast.In, ast.NotIn)) and isinstance(e.comparators[0], (ast.Tuple, ast.List, ast.Set)):
+            a = self._eval(e.left, env)
+            r = a in [self._eval(x, env) for x in e.comparators[0].elts]
+            return r if isinstance(e.ops[0], ast.In) else not r
         if isinstance(e, ast.BoolOp):
             vals = [self._eval(v, env) for v in e.values]
             return all(vals) if isinstance(e.op, ast.And) else any(vals)
@@ -90,8 +101,12 @@ class PrinterModel:
                 return a >= b
         if isinstance(e, ast.Constant):
             return e.value
+        if isinstance(e, ast.IfExp):
+            return self._eval(e.body, env) if self._eval(e.test, env) else self._eval(e.orelse, env)
         if isinstance(e, ast.Call) and call_name(e) == 'get_priority':
             return env['q']
+        if isinstance(e, ast.Subscript) and isinstance(e.value, ast.Call) and call_name(e.value) == 'get_priority_pair' and isinstance(e.slice, ast.Constant):
+            return env['q'] if e.slice.value == 0 else env['kind']
         if isinstance(e, ast.Name):
             if e.id.endswith('_prior'):
                 return env['q']
